@@ -21,4 +21,5 @@ for f in sorted(os.listdir(os.path.join(os.path.dirname(vocab.__file__), 'rules'
     out[pid] = vocab.baseline(run)
     print(pid, 'rules', len(out[pid]), 'functions', sum(len(v) for v in out[pid].values()),
           'names', sum(len(n) for v in out[pid].values() for n in v.values()), '(non-discharged obligations: %d)' % len(bad))
+out['_analyser_digest'] = vocab.analyser_digest()
 json.dump(out, open(vocab.PATH, 'w'), indent=0, sort_keys=True)
